@@ -14,6 +14,9 @@ CLAIMS = {
  "C03": dict(cat="fault_enumeration", tech="rapid history generation with one cluster-side fault per operation (request k rejected / waiter k fails), positions drawn from the real call count and enumerated for the last operation in the thorough tier",
    text="Every install/upgrade/rollback in a generated history draws one cluster-side fault; when it fired the check asserts error, failed status of the created revision, deployed status kept, cleanup-on-fail and the atomic restore clauses.",
    note="Same simulated world as C01; atomic clauses are judged only when the cluster rejected exactly one call of the operation; three genuine defects listed as known findings."),
+ "C04": dict(cat="exploration", tech="rapid grammar-based generation (values files, every --set flag family printed from an AST, chart trees) against independent reference models: layered merge, path assignment, chart-tree coalescing; aliasing detected by mutating the result",
+   text="Three generated-input properties: Options.MergeValues against the documented flag precedence; every strvals parser applied to a random base against a reference path assignment (typing + frame rule); ToRenderValues over chart trees up to three subchart levels against a reference coalescer, plus immutability of defaults and caller maps.",
+   note="Literal classes limited to documented ones; ill-typed assignments and scalar-vs-table clashes of sections/global are counted, not judged."),
  "C06": dict(cat="exploration", tech="rapid generation of (history prefix, operation, dry-run spelling, flag set) with a metamorphic non-dry-run twin on a cloned world",
    text="Every dry-run spelling x random flags x history states; the request log, the storage call log and before/after snapshots must show no write; the twin run proves the case could have written.",
    note="Simulated world as C01."),
